@@ -114,6 +114,14 @@ func pricedClasses() []priced {
 	add("MultiESDTNFTTransfer/cross-shard-1-nft", "ESDTNFTMultiTransfer", uni.Multi(A0, C1, []uni.Ent{{Tok: uni.S, Nonce: 1, Q: 1}}), copyBytes, 1)
 	add("MultiESDTNFTTransfer/cross-shard-2-mixed", "ESDTNFTMultiTransfer", uni.Multi(A0, C1, []uni.Ent{{Tok: uni.S, Nonce: 1, Q: 1}, {Tok: uni.F, Nonce: 0, Q: 1}}), copyBytes, 2)
 	add("MultiESDTNFTTransfer/cross-shard-3-two-nfts-with-call", "ESDTNFTMultiTransfer", uni.Multi(A0, uni.S1c, []uni.Ent{{Tok: uni.S, Nonce: 1, Q: 1}, {Tok: uni.F, Nonce: 0, Q: 1}, {Tok: uni.S, Nonce: 2, Q: 1}}, []byte("f")), copyBytes, 3)
+	// attached calls with several arguments (the number of tokens, not of arguments, is charged)
+	x, y := []byte("x"), []byte("yy")
+	add("ESDTTransfer/to-contract-call-3-args", "ESDTTransfer", uni.ESDTTransfer(A0, S0, uni.F, 1, []byte("f"), x, y, x), none, 1)
+	add("ESDTNFTTransfer/cross-shard-call-2-args", "ESDTNFTTransfer", uni.NFTTransfer(A0, uni.S1c, uni.S, 1, 1, []byte("f"), x, y), copyBytes, 1)
+	add("MultiESDTNFTTransfer/same-shard-contract-call-2-args", "ESDTNFTMultiTransfer", uni.Multi(A0, S0, []uni.Ent{{Tok: uni.F, Nonce: 0, Q: 1}}, []byte("f"), x, y), none, 1)
+	add("MultiESDTNFTTransfer/cross-shard-2-mixed-call-2-args", "ESDTNFTMultiTransfer", uni.Multi(A0, uni.S1c, []uni.Ent{{Tok: uni.S, Nonce: 1, Q: 1}, {Tok: uni.F, Nonce: 0, Q: 1}}, []byte("f"), x, y), copyBytes, 2)
+	add("MultiESDTNFTTransfer/cross-shard-1-fungible-call-5-args", "ESDTNFTMultiTransfer", uni.Multi(A0, uni.S1c, []uni.Ent{{Tok: uni.F, Nonce: 0, Q: 1}}, []byte("f"), x, y, x, y, x), none, 1)
+	add("MultiESDTNFTTransfer/cross-shard-4-fungible", "ESDTNFTMultiTransfer", uni.Multi(A0, C1, []uni.Ent{{Tok: uni.F, Nonce: 0, Q: 1}, {Tok: uni.F1, Nonce: 0, Q: 1}, {Tok: uni.F, Nonce: 0, Q: 1}, {Tok: uni.F1, Nonce: 0, Q: 1}}), none, 4)
 	return out
 }
 
@@ -232,14 +240,28 @@ func C16(tier Tier) int {
 		// variant 0: every function active from the start; variant 1: the epoch-gated functions are
 		// still inactive (activation epoch 1, epoch 0 confirmed) while the schedule changes arrive
 		// and are activated afterwards - the prices in force must be the same
-		for variant := 0; variant < 2; variant++ {
+		// variant 2: the factory receives every change before it creates the function container;
+		// variant 3: it receives the first change before and the others after
+		for variant := 0; variant < 4; variant++ {
 			cfg := ledgerEnv(2)
 			cfg.Schedule = world.PrimeSchedule(0) // construction schedule S1
-			if variant == 1 {
-				if len(seq) == 0 {
-					continue
-				}
+			if variant >= 1 && len(seq) == 0 {
+				continue
+			}
+			if variant == 3 && len(seq) < 2 {
+				continue
+			}
+			before := 0
+			switch variant {
+			case 1:
 				cfg.ActivationEpoch = 1
+			case 2:
+				before = len(seq)
+			case 3:
+				before = 1
+			}
+			for _, idx := range seq[:before] {
+				cfg.ChangesBeforeCreation = append(cfg.ChangesBeforeCreation, alphabet[idx].s)
 			}
 			env, err := world.NewEnv(cfg)
 			if err != nil {
@@ -249,12 +271,19 @@ func C16(tier Tier) int {
 			inForce := world.PrimeSchedule(0)
 			inForceName := "S1(construction)"
 			label := ""
-			if variant == 1 {
+			switch variant {
+			case 1:
 				label = "(inactive until after the changes) "
+			case 2:
+				label = "(all changes arrive before the container is created) "
+			case 3:
+				label = "(the first change arrives before the container is created) "
 			}
-			for _, idx := range seq {
+			for i, idx := range seq {
 				ns := alphabet[idx]
-				env.ChangeSchedule(ns.s)
+				if i >= before {
+					env.ChangeSchedule(ns.s)
+				}
 				label += ns.name + ";"
 				if scheduleValid(ns.s) {
 					inForce, inForceName = ns.s, ns.name
